@@ -92,7 +92,10 @@ impl EntityLoader for SupersetLoader<'_> {
 
 fn case(t: &mut Tape, rec: &mut Rec<'_>) {
     let o = AuthOpts { closed_16: 0, schema: SchemaOpts { chains: true, ..SchemaOpts::default() }, max_policies: rec.size(3, 5), depth: rec.size(2, 3), path_budget: 4, traps: false };
-    let c = match scase::gen_auth_case(t, &o) {
+    crate::gen::s::DENSE_WORLD.with(|c| c.set(true));
+    let generated = scase::gen_auth_case(t, &o);
+    crate::gen::s::DENSE_WORLD.with(|c| c.set(false));
+    let c = match generated {
         Ok(c) => c,
         Err(e) => {
             rec.discard(e.split(':').next().unwrap_or("discard").to_string());
@@ -163,6 +166,6 @@ pub fn property() -> Property {
                with the library's TestEntityLoader and with a harness loader returning supersets of what is requested: Ok(d) must equal ordinary authorization; the only admissible error is `insufficient iterations`; \
                once a budget yields a decision every larger budget yields it too; budget n+1 always yields a decision. Non-trivial = the loader was asked in >=2 rounds (entity chains).",
         assumptions: &["World-S conformance", "loader contract: returns exactly the store's data (plus extras)"],
-        subs: vec![SubCheck { name: "batched", cases: (100_000, 2_000_000), tape_len: 4000, run: case, min_labels: &[("loader-rounds>=2", 3000), ("absent-entity-requested", 10_000), ("superset-loader", 30_000)] }],
+        subs: vec![SubCheck { name: "batched", cases: (200_000, 4_000_000), tape_len: 4000, run: case, min_labels: &[("loader-rounds>=2", 12_000), ("first-decision-at-budget:3", 800), ("absent-entity-requested", 40_000), ("superset-loader", 60_000)] }],
     }
 }
